@@ -71,6 +71,8 @@ func runC19(c *Ctx, r *Report) {
 	r.Doc("R-C19.5", "Sort's less is f<0 (f>0 when reversed) of the given comparator on (values[i], values[j]); errors map to false")
 	r.Doc("R-C19.6", "no comparator result depends on whether the integer subtraction of clock times overflowed or produced the most negative integer")
 	r.Doc("R-C19.7", "the comparators' nil guard is a nil guard: (*Entry).Defined depends on nothing but the entry existing")
+	r.Doc("R-C19.9", "the orderings respect causality only for entries stamped above their predecessors with a clock of their own: Append takes the maximum over the heads exactly, adds one, and stores a fresh clock object (adopted from C04: a rounded maximum stamps a successor below its predecessor; a clock object shared with the log is re-stamped by the next Tick and the comparators change their answer for a stored entry)")
+	importRules(c, r, "C04", []string{"R-C04.1", "R-C04.2"}, "R-C19.9")
 	r.Doc("R-C19.8", "both sides of a comparison see the same numbers: the clock's getters return their field, its constructor and copy keep their arguments")
 
 	definedReadsNothing(c, r, "R-C19.7")
